@@ -19,6 +19,8 @@
         states that are also outputs (renamed by the reader: [tau] absorbs the renaming), states
         without init and next (demoted to inputs), shared sort declarations, the id cache, the
         builders' normal forms (slice of the whole operand, extension by 0).
+        [C09_roundtrip_complete] adds, for closed systems, the converse direction (every environment of
+        [sy] has a partner environment of [sy']) and that the symbols of [sy'] are pairwise distinct.
         Hypotheses that the lead's draft did not have: [NoDup (declared sy)] (with a symbol declared
         twice the writer's id cache and the reader's maps diverge: [c09_dup_symbol] below);
         [sys_closed] is NOT needed (the writer refuses undeclared symbols).
@@ -39,7 +41,7 @@
     reader returns for the written lines has the meaning btor2 assigns to those lines. *)
 From Coq Require Import List String NArith Bool.
 From Patronus Require Import SysClosed Btor2Parse Btor2Ser Btor2Sem Btor2Agree Btor2Witness Btor2NoCrash Btor2Sound Btor2ParseProofs Btor2SerProofs
-     Btor2RoundTripSpec Btor2RoundTrip.
+     Btor2RoundTripSpec Btor2RoundTrip Btor2RoundTripEnv.
 Import ListNotations.
 Open Scope N_scope.
 
@@ -126,6 +128,33 @@ Theorem C09_roundtrip_sem_repo :
     exists sy' tau pull, (forall dbg, parse_lines_v v dbg lines = POk sy') /\ rt_agrees sy sy' tau pull.
 Proof. exact roundtrip_sem_fix. Qed.
 Print Assumptions C09_roundtrip_sem_repo.
+
+(** The complete, symmetric statement for closed systems (any reader variant [v]: [Cur] needs [sys_ok_weak]
+    only, [Fix] = /repo and [Fix2] also need Boolean bad states and constraints): the system read back has
+    pairwise distinct symbols; every environment [rho'] of it induces an environment of [sy] under which
+    the two systems mean the same ([rt_agrees]); and conversely for EVERY environment [rho] of [sy] there
+    is an environment [rho'] of the system read back such that all positionally corresponding symbols,
+    init / next / output / bad / constraint expressions have the same type and value ([rt_same]). *)
+Theorem C09_roundtrip_complete :
+  forall v sy lines,
+    sys_ok_weak sy = true -> (is_fix v = true -> props_1bit sy = true) -> sys_closed sy ->
+    NoDup (declared sy) -> sys_fits sy = true ->
+    serialize sy = POk lines -> N.of_nat (List.length lines) <= U32MAX ->
+    exists sy',
+      (forall dbg, parse_lines_v v dbg lines = POk sy') /\
+      NoDup (declared sy') /\
+      (exists tau pull, rt_agrees sy sy' tau pull) /\
+      (forall rho, env_wf rho -> exists rho', env_wf rho' /\ rt_same sy sy' rho rho').
+Proof. exact roundtrip_complete. Qed.
+Print Assumptions C09_roundtrip_complete.
+
+(** A fact about the reader alone, used above: the inputs and state symbols of EVERY accepted system
+    (any text, any reader variant, any build profile) are pairwise distinct - [unique_name] is fresh,
+    and [improve_state_names] renames a state only to a name recorded for that state alone. *)
+Theorem C09_accepted_symbols_distinct :
+  forall v dbg ls sy, parse_lines_v v dbg ls = POk sy -> NoDup (declared sy).
+Proof. exact accepted_distinct. Qed.
+Print Assumptions C09_accepted_symbols_distinct.
 
 (** Non-vacuity: the example system satisfies every hypothesis. *)
 Example C09_roundtrip_hyps :
